@@ -90,3 +90,22 @@ _t("C19",
    "byte-for-byte dump, retry equals fault-free run), plus refusal-without-modification checks on real wtxmgr/waddrmgr namespaces whose version marker is forced above/at/below the latest.",
    "Trusted: the pure model of 'numbers above the stored version, ascending, each once'; recursive dump comparison as the definition of unchanged data.",
    "property-based testing + fuzzing with per-case exhaustive fault positions", "DESIGN.md §3 C19")
+
+_t("C16",
+   "Usage patterns that satisfy the look-ahead condition are constructed from an independent BIP32 oracle (no original wallet), mined into a model chain, and a wallet restored from the seed "
+   "must find every used address, every transaction, the right balance and spendable set, leave next indices above the used ones and start scanning before the first payable block - also "
+   "when the backend fails mid-recovery or the wallet is stopped and reopened. The invalid-child arithmetic is covered at the BranchRecoveryState level.",
+   "Trusted: internal/bip32ref, internal/simchain (FilterBlocks uses the real chain.BlockFilterer, which is code under test), harness coin ledger.",
+   "property-based testing: constructive generator + independent oracle + backend model", "DESIGN.md §3 C16")
+_t("C04",
+   "After every commit of generated histories the real file bytes are searched (multi-pattern) for every secret the run has produced, computed by an independent oracle, in raw and all "
+   "serialised text forms, plus public material; a second oracle offers every stored field to adversaries without the private passphrase (public crypto key, all-zero key, public "
+   "passphrase key). Conversion to watching-only is followed by reopen and refusal checks of every private accessor. A wallet-level unit covers the real namespace layout.",
+   "Trusted: internal/bip32ref and plain encodings for the needle set; the page-superset argument for crash images (DESIGN C04 L).",
+   "property-based testing: generated histories with a byte-scan + wrong-key decryption oracle", "DESIGN.md §3 C04")
+_t("C10",
+   "Fault enumeration: for every mutating call position k of a drawn operation on a drawn state, a fresh copy of the database runs the operation with exactly that call failing; the "
+   "operation must report an error (or have its full effect), all queries must answer as before on the running objects, on a fresh manager and after reopen, and a retry must reproduce "
+   "the fault-free result. Exhaustive over positions per (operation, state); states and operations are sampled.",
+   "Trusted: internal/proxydb fault injection (walletdb interface level), the C01/C13 and C08 query sets as the definition of 'as before'.",
+   "property-based testing with exhaustive single-fault injection per generated (state, operation)", "DESIGN.md §3 C10")
